@@ -153,12 +153,12 @@ def _machine_shard(arg):
                 self._do({"op": "create", "spec": list(pool[i])})
 
             @precondition(lambda self: len(self.w.live) > 0)
-            @rule(obj=st.integers(0, 5), getter=st.integers(0, 8), edit=st.booleans())
+            @rule(obj=st.integers(0, 5), getter=st.integers(0, 25), edit=st.booleans())
             def getter(self, obj, getter, edit):
                 self._do({"op": "getter", "obj": obj, "getter": getter, "edit": edit})
 
             @precondition(lambda self: len(self.w.live) > 0)
-            @rule(obj=st.integers(0, 5), getters=st.lists(st.integers(0, 8), min_size=2, max_size=6), edit=st.booleans())
+            @rule(obj=st.integers(0, 5), getters=st.lists(st.integers(0, 25), min_size=2, max_size=6), edit=st.booleans())
             def getter_burst(self, obj, getters, edit):
                 for gi in getters:  # several getters on one object, any order, repeats likely
                     self._do({"op": "getter", "obj": obj, "getter": gi, "edit": edit})
